@@ -49,6 +49,14 @@ SOLVER_NOTE = TB + ('the objective is an oracle (arbitrary stream of finite valu
                     '(reals, non-NaN binary64); depq.DEPQ modelled as a stable descending list; pow() results taken from the implementation\'s own calls; '
                     'the evolvent, scipy and listeners are outside this model.')
 CHECKS.update({
+    'C19': dict(
+        text='Theorems over an executable model of SearchData / SearchDataDualQueue / CharacteristicsQueue (generic key type with a total order): both queues stay sorted '
+             'under ANY finite operation sequence (induction over the sequence), a best-interval request returns an entry of maximal queued priority, the dual variant returns a '
+             'current entry with nothing larger left after discarding stale ones / refilling, a bounded queue cuts off only entries not larger than what it keeps, lookup returns the '
+             'first item to the right, insertion at a valid position keeps strict order and adds one to the count. Tie: recorded skeletons of the container methods and replay of '
+             'random and all short operation sequences on the real classes against the model inside coqc; an admissible-answer oracle (any arg-max accepted) checks the real classes directly.',
+        design='5 C19', note=TB + 'depq.DEPQ (third party) modelled as a stable descending list with drop-last bounding; links are list order in the model and checked on the real objects by the oracle.',
+        technique='Rocq proof by induction over operation sequences + operation-sequence correspondence'),
     'C02': dict(
         text='Theorem (Coq, generic numeric type): in every state reachable from the initial one by any number of iterations under ANY stream of objective values, '
              'the subdivided interval has maximal stored characteristic among all intervals of the partition, the stored characteristics are the characteristics under '
